@@ -185,7 +185,7 @@ func (g *astGen) atom(d int, o Opts) *Ast {
 	case 8:
 		if g.c.OptGroup {
 			a := &Ast{Kind: AOptGroup}
-			fl := []string{"i", "m", "s"}
+			fl := []string{"i", "m", "s", "n"}
 			for _, f := range fl {
 				switch g.r.Intn(4) {
 				case 0:
